@@ -2314,6 +2314,95 @@ void noncommutative_scalars()
   }
 }
 
+// ---- a trivially copyable, padding-free scalar whose == is COARSER than byte equality (residues mod 7 kept unreduced):
+// == / != of vector, dim and matrix are the element-wise comparison with the scalar's own operator==, and the ring
+// identities hold as equalities of the scalar type.
+struct mod7
+{
+  int rep = 0; // any representative
+  friend mod7 operator+(mod7 a, mod7 b) { return mod7{a.rep + b.rep}; }
+  friend mod7 operator-(mod7 a, mod7 b) { return mod7{a.rep - b.rep}; }
+  friend mod7 operator*(mod7 a, mod7 b) { return mod7{(a.rep % 7) * (b.rep % 7)}; }
+  mod7 &operator+=(mod7 b) { return *this = *this + b; }
+  mod7 &operator-=(mod7 b) { return *this = *this - b; }
+  mod7 &operator*=(mod7 b) { return *this = *this * b; }
+  static int norm(int r) { return ((r % 7) + 7) % 7; }
+  friend bool operator==(mod7 a, mod7 b) { return norm(a.rep) == norm(b.rep); }
+  friend bool operator!=(mod7 a, mod7 b) { return !(a == b); }
+};
+static_assert(std::has_unique_object_representations_v<mod7> && std::is_trivially_copyable_v<mod7>);
+}
+namespace fcppt
+{
+template <>
+struct make_literal<mod7, void>
+{
+  using decorated_type = mod7;
+  template <typename Arg>
+  static decorated_type get(Arg const v)
+  {
+    return mod7{static_cast<int>(v)};
+  }
+};
+}
+namespace
+{
+void coarse_equality_scalars()
+{
+  std::string const e = "vector,dim,matrix<residues-mod-7>/comparison";
+  if (!vf::entry_enabled(e))
+    return;
+  vf::set_entry(e);
+  namespace mx = fm::matrix;
+  using V = fm::vector::static_<mod7, 3>;
+  using D = fm::dim::static_<mod7, 2>;
+  using M = mx::static_<mod7, 2, 2>;
+  std::uint64_t const n = vf::tier<std::uint64_t>(400, 40000);
+  for (std::uint64_t i = 0; i < n; ++i)
+  {
+    if (!vf::mine(i))
+      continue;
+    vf::rng g(vf::seed_for(e, i));
+    std::array<int, 4> a{}, b{};
+    bool const same_class = g.chance(1, 2);
+    for (std::size_t k = 0; k < 4; ++k)
+    {
+      a[k] = static_cast<int>(g.range(-20, 20));
+      b[k] = same_class ? a[k] + 7 * static_cast<int>(g.range(-3, 3)) : static_cast<int>(g.range(-20, 20));
+    }
+    if (!vf::begin_case("i=%llu a=(%d,%d,%d,%d) b=(%d,%d,%d,%d)", static_cast<unsigned long long>(i), a[0], a[1], a[2], a[3], b[0], b[1], b[2], b[3]))
+      continue;
+    vf::sample_case(1);
+    vf::note_distinct(vf::hash_mix(vf::hash_str(e), vf::hash_mix(vf::hash_bytes(a.data(), sizeof a), vf::hash_bytes(b.data(), sizeof b))));
+    auto const eq = [&](std::size_t cnt) {
+      bool r = true;
+      for (std::size_t k = 0; k < cnt; ++k)
+        r = r && mod7{a[k]} == mod7{b[k]};
+      return r;
+    };
+    bool different_bytes = false;
+    for (std::size_t k = 0; k < 4; ++k)
+      different_bytes = different_bytes || a[k] != b[k];
+    if (eq(4) && different_bytes)
+      VF_COUNT("coarse-equality/equal-values-with-different-representations");
+    auto const bad = [&](char const *what) { vf::violation(std::string(what) + "<residues-mod-7>/not-the-element-wise-comparison", "mismatch", vf::current_case()); };
+    V const va(mod7{a[0]}, mod7{a[1]}, mod7{a[2]}), vb(mod7{b[0]}, mod7{b[1]}, mod7{b[2]});
+    if ((va == vb) != eq(3) || (va != vb) == eq(3))
+      bad("vector::operator==");
+    D const da(mod7{a[0]}, mod7{a[1]}), db(mod7{b[0]}, mod7{b[1]});
+    if ((da == db) != eq(2) || (da != db) == eq(2))
+      bad("dim::operator==");
+    M const ma(mx::row(mod7{a[0]}, mod7{a[1]}), mx::row(mod7{a[2]}, mod7{a[3]})), mb(mx::row(mod7{b[0]}, mod7{b[1]}), mx::row(mod7{b[2]}, mod7{b[3]}));
+    if ((ma == mb) != eq(4) || (ma != mb) == eq(4))
+      bad("matrix::operator==");
+    // a ring identity as an equality of library results: (A + B) * s == A * s + B * s
+    mod7 const sc{static_cast<int>(g.range(-9, 9))};
+    if (!((ma + mb) * sc == ma * sc + mb * sc))
+      bad("law:(A+B)*s=A*s+B*s");
+    VF_COUNT("coarse-equality/cases");
+  }
+}
+
 // ---- rectangular shapes: identity (ones exactly where row == column), null, fill, init, transpose, products between
 // compatible shapes, matrix * vector, comparison - against plain arrays.  Tall, wide, one column, one row.
 template <std::size_t R, std::size_t C>
@@ -2423,6 +2512,7 @@ void vf_slice_10()
   rect_shapes<int>();
   rect_shapes<long>();
   noncommutative_scalars();
+  coarse_equality_scalars();
   vf::count("heavy/constructed", vf::heavy_stats().constructed);
   vf::count("heavy/moved", vf::heavy_stats().moved);
   vf::count("heavy/moved-from-reads(observed)", vf::heavy_stats().moved_from_reads);
@@ -2460,7 +2550,7 @@ void body()
         "storage/dim/view,view", "storage/dim/static,view", "storage/dim/view,static", "vector/dot/nonzero",
         "vector/cross/nonzero", "vector/cross/zero", "cmp/equal", "cmp/less", "cmp/greater",
         "cmp/differ-in-last-component-only", "cmp/equal-prefix-then-different",
-        "cmp/later-component-ordered-the-other-way", "storage/vector/raw_view", "observed/calls", "rect/tall-by-two-or-more", "noncommutative/scalar-does-not-commute-with-an-element"})
+        "cmp/later-component-ordered-the-other-way", "storage/vector/raw_view", "observed/calls", "rect/tall-by-two-or-more", "noncommutative/scalar-does-not-commute-with-an-element", "coarse-equality/equal-values-with-different-representations"})
     vf::require_bucket(b);
   vf_slice_0();
   vf_slice_1();
